@@ -124,9 +124,9 @@ def check(ctx, src):
             known_class = base in ex.classes or isinstance(getattr(_b, base, None), type)
             ctx.decide("FUNNEL-OUTSIDE", f"{mod.rel}|{name}|raise {base}", (base in lex) if known_class else None, f"`{name}` runs outside the converting try and raises {base}, which is not a reader error", mod.rel, r.lineno,
                       witness="hy.read-many raises that exception type", detail="LexException subclass")
-        if name != "try_parse_one_form":
-            extra = sorted(c for c in rq.calls_of(f) if c not in OUTSIDE_OK_CALLS and c in rq.methods)
-            ctx.check(not extra, "FUNNEL-OUTSIDE", f"{mod.rel}|{name}|calls", f"`{name}` (outside the converting try) now calls {extra}", mod.rel, f.lineno, detail="character primitives only")
+        # (what these functions call needs no rule of its own: `outside` is the closure under calls, so a method that becomes
+        # reachable outside the try is itself checked for its raises above, and code that dispatches to handlers is
+        # required to be unreachable from here by FUNNEL-INSIDE.)
     ctx.assume("implicit exceptions (e.g. from the underlying stream's read()) in the 10 functions outside the try are not modelled; termination is not decided")
     # --- hierarchy
     errs = src.py("hy/errors.py")
@@ -138,7 +138,7 @@ def check(ctx, src):
     ctx.require(rm_ is not None, "read_many not found")
     ctx.check(pyq.contains(rm_, lambda n: isinstance(n, ast.Call) and dotted(n.func) == "hy.models.Lazy" and "reader.parse(" in norm(n)) is not None, "FUNNEL-INSIDE", "hy/reader/__init__.py|read_many|parse",
               "read_many no longer reads through HyReader.parse", "hy/reader/__init__.py", rm_.lineno, detail="Lazy(reader.parse(...))")
-    ctx.floor("FUNNEL-OUTSIDE", 8)
+    ctx.floor("FUNNEL-OUTSIDE", 3)
 
 
 SELFTESTS = [
